@@ -15,6 +15,8 @@ fuzz_target!(|data: &[u8]| {
     let ctx = shared::context(&mut u);
     let src: String = String::from_utf8_lossy(tail).chars().take(4096).collect();
     let p = Program { family: "raw", src, ast: None, ctx };
+    // crash triage: when VERIF_JOURNAL_DIR is set the case in flight is kept on disk in replay format
+    vcore::journal("C01", || p.case_json());
     if let Err(pi) = vcore::catch(|| vchecks::c01::exercise(&p.src, &p.ctx)) {
         shared::report(
             "C01",
